@@ -452,7 +452,7 @@ def translate_source(text, path="<string>"):
 def stub(path, reason):
     """What is written when the translation aborts: no kernel (translation_ok = false), so the
     theorems cannot be proved and the Tie only runs the Spec oracle."""
-    reason = reason.replace("*)", "* )").replace("(*", "( *")
+    reason = "".join(ch if (ch.isalnum() and ch.isascii()) or ch in " _.,:=[]-+/" else "?" for ch in reason)
     out = HEADER % {"path": path, "ok": "false"}
     out += "(* translation aborted: %s *)\n" % reason
     out += "\nDefinition fromFunction (co : code) : result method := IndexError.\n"
